@@ -18,7 +18,7 @@ from vf import gen, prog, forked
 from vf.checks import c05
 
 PROP = "C12"
-CASES = {"quick": 560, "thorough": 9000}
+CASES = {"quick": 560, "thorough": 16000}
 RULE = ("B = generated model (vf/gen.py) or legal instruction soup (vf/checks/c05.soup) with solve options; history of "
         "0-4 other generated programs with endings {solve, abandon, raise, unbounded solve}; dumps compared between a "
         "fresh child and a child that first ran the history (and a child with another verbosity).  Non-trivial = "
